@@ -142,19 +142,20 @@ prop("C15",
      )
 
 prop("C01",
-     modules=["Emu2a.Props.C01"],
+     modules=["Emu2a.Props.C01", "Emu2a.Props.C01x.EmitCovered"],
      theorems=["Emu2a.C01.isa_refines", "Emu2a.C01.isa_refines_seq", "Emu2a.C01.one_byte_refines",
                "Emu2a.C01.two_byte_refines", "Emu2a.C01.second_any", "Emu2a.C01.prefix_any", "Emu2a.C01.iter_pendInt",
                "Emu2a.C01.exec_core", "Emu2a.C01.op_64", "Emu2a.C01.op_84", "Emu2a.C01.op_5C", "Emu2a.C01.op_28",
                "Emu2a.C01.op_2C", "Emu2a.C01.op_21", "Emu2a.C01.pre_FF", "Emu2a.C01.sec_1F", "Emu2a.C01.sec_2C",
                "Emu2a.C01.sec_6C", "Emu2a.C01.mulLoop_spec", "Emu2a.C01.mul_loop_0", "Emu2a.C01.mul_loop_3",
                "Emu2a.C01.div_loop_0", "Emu2a.C01.div_loop_3", "Emu2a.C01.op_B6", "Emu2a.C01.op_CD",
-               "Emu2a.C01.page_B", "Emu2a.C01.page_C"],
+               "Emu2a.C01.page_B", "Emu2a.C01.page_C", "Emu2a.C01.emittable", "Emu2a.C01.covered_of_first",
+               "Emu2a.C01.covered_of_prefix"],
      harness="c01",
      shrink=True,
      timeout=14400,
      exhaustive={"quick": False, "thorough": True},
-     level_text="Lean refinement theorem isa_refines (and isa_refines_seq for instruction sequences): from an instruction boundary with arbitrary R0-R2, PC, SP, flag register, bus contents AND arbitrary scratch registers / instruction register / ALU latch, the data path of the micro-machine over the control store regenerated from the source reaches the next boundary in exactly the architectural state Isa.step prescribes (registers, all flag-register bits, SP, the whole bus) - for EVERY defined instruction: every defined first byte (218 generated lemmas incl. the 32 MUL/DIV opcodes), all 16 prefixes and all 82 defined second bytes, composed for two-byte forms and sequences. The data-dependent MUL and DIV micro-loops are proved per destination register by one symbolic pass through the loop body and induction over the number of passes (mul_loop_k, div_loop_k: the loop computes the pure functions mulLoop / repeated subtraction for any operand); mulLoop_spec (the loop multiplies, carry = product > 255) by kernel evaluation over all 65 536 operand pairs, the DIV quotient by an arithmetic proof, division by zero (0xFF, carry) by symbolic execution. The model's edge function is tied to raw/mod.rs, signals.rs, alu.rs by edge-by-edge differential dumps (all private fields) and the exhaustive ALU / next-address comparisons of C08/C09; every instruction is also executed on the real machine against Isa.step",
+     level_text="Lean refinement theorem isa_refines (and isa_refines_seq for instruction sequences): from an instruction boundary with arbitrary R0-R2, PC, SP, flag register, bus contents AND arbitrary scratch registers / instruction register / ALU latch, the data path of the micro-machine over the control store regenerated from the source reaches the next boundary in exactly the architectural state Isa.step prescribes (registers, all flag-register bits, SP, the whole bus) - for EVERY defined instruction: every defined first byte (218 generated lemmas incl. the 32 MUL/DIV opcodes), all 16 prefixes and all 82 defined second bytes, composed for two-byte forms and sequences; emittable + covered_of_first / covered_of_prefix: the bytes the reference encoding (= the translator's output by C02's compile_eq_ref) produces for ANY instruction form with any registers, constants, labels and addresses have exactly the shape the theorem covers (only exception: a source operand that spells out `(PC+)` / `((PC+))`, which the assembler encodes without an operand byte). The data-dependent MUL and DIV micro-loops are proved per destination register by one symbolic pass through the loop body and induction over the number of passes (mul_loop_k, div_loop_k: the loop computes the pure functions mulLoop / repeated subtraction for any operand); mulLoop_spec (the loop multiplies, carry = product > 255) by kernel evaluation over all 65 536 operand pairs, the DIV quotient by an arithmetic proof, division by zero (0xFF, carry) by symbolic execution. The model's edge function is tied to raw/mod.rs, signals.rs, alu.rs by edge-by-edge differential dumps (all private fields) and the exhaustive ALU / next-address comparisons of C08/C09; every instruction is also executed on the real machine against Isa.step",
      technique="Lean 4 refinement proof by symbolic execution of the translated control store (316 generated per-opcode lemmas, loop lemmas by induction for MUL/DIV, kernel evaluation of the multiplication table) + differential search: every instruction from random/exhaustive architectural states on the real machine against the ISA specification",
      rule="(1) every defined first byte (x defined second bytes) x random architectural states with addresses partly biased into 0xF0-0xFF, random RAM/input registers; (2) register-register ALU group incl. MUL/DIV: random operand pairs for all 16 register pairs (thorough: all 65 536 pairs x carry-in for pages 6-D); (3) unary ops x values x 16 flag states (thorough: all 256 x 16); (4) random instruction sequences of up to 200 instructions over opcode-biased images (self-modifying code, PC running into I/O, stale scratch registers); each instruction is executed on the real machine from its boundary and compared with Isa.step (spec.isa), and the model machine is compared after every instruction (d); distinct = distinct (opcode, second byte, registers, code bytes)",
      explanation="MISR is outside the architectural comparison except for RETI's documented clearing of the key bits",
